@@ -405,8 +405,10 @@ func (f FunctionBuilder) Compile(ctx *cert.CertificateContext) (*pkix.Extension,
 func Validate(profile CertificateProfile, content CertificateContent) bool {
 	//check subject attributes
 	if profile.SubjectAttributes.Attributes != nil {
-		//reverse subject, since we are comparing against a string representation
-		subject := content.Subject
+		//reverse a copy of the subject, since we are comparing against a
+		//string representation (the caller's slice must stay untouched)
+		subject := make(pkix.RDNSequence, len(content.Subject))
+		copy(subject, content.Subject)
 		for i, j := 0, len(subject)-1; i < j; i, j = i+1, j-1 {
 			subject[i], subject[j] = subject[j], subject[i]
 		}
